@@ -33,6 +33,7 @@ type GhostUpdate struct {
 // result ("result", "result[i]") of the first call of Callee executed on the path.
 type Capture struct {
 	Name, Callee, What string
+	Kind               string // "bytes" (default): a byte slice; "scalar": a one-leaf value (Int-coded)
 }
 
 type GhostVar struct {
@@ -275,10 +276,14 @@ func (sp *Spec) LoadContractFile(path, defaultPkg string) error {
 				return err
 			}
 			parts := strings.Fields(rest)
-			if len(parts) != 3 {
-				return fmt.Errorf("%s: bad capture %q (want: capture <name> <callee> <arg index|result>)", path, d)
+			if len(parts) != 3 && len(parts) != 4 {
+				return fmt.Errorf("%s: bad capture %q (want: capture <name> <callee> <arg index|result> [scalar])", path, d)
 			}
-			c.Captures = append(c.Captures, Capture{parts[0], qualifyFunc(parts[1], imports, defaultPkg), parts[2]})
+			cp := Capture{Name: parts[0], Callee: qualifyFunc(parts[1], imports, defaultPkg), What: parts[2], Kind: "bytes"}
+			if len(parts) == 4 {
+				cp.Kind = parts[3]
+			}
+			c.Captures = append(c.Captures, cp)
 		case "ghostvar":
 			if err := need(); err != nil {
 				return err
